@@ -142,6 +142,14 @@ func c10Scenarios() []c10Scenario {
 			return e, func() *env.Call { return e.Do(env.Req{Path: path}) }
 		}
 	}
+	// endpoints that take no parameter, asked with every name the library's source mentions as a parameter: whatever
+	// switch a name may flip, a storage failure stays a failure
+	getWithNames := func(path string) func(o env.Opts) (*env.Env, func() *env.Call) {
+		return func(o env.Opts) (*env.Env, func() *env.Call) {
+			e := mk(o)
+			return e, func() *env.Call { return e.Do(env.Req{Path: path, Query: dictQuery()}) }
+		}
+	}
 	// the same requests with white space around the Issuer text (pretty-printed documents): whatever a handler does
 	// about that, a storage failure stays a failure
 	padded := func(kind, binding string) func(o env.Opts) (*env.Env, func() *env.Call) {
@@ -185,6 +193,10 @@ func c10Scenarios() []c10Scenario {
 		{Name: "certificate", run: get(env.PathCert)},
 		{Name: "readiness", run: get("/ready")},
 		{Name: "health", run: get("/healthz")},
+		{Name: "readiness_with_named_parameters", run: getWithNames("/ready")},
+		{Name: "health_with_named_parameters", run: getWithNames("/healthz")},
+		{Name: "metadata_signed_with_named_parameters", Opts: env.Opts{MetaSigAlg: spsim.AlgRSASHA256}, run: getWithNames(env.PathMetadata)},
+		{Name: "certificate_with_named_parameters", run: getWithNames(env.PathCert)},
 	}
 }
 
